@@ -131,6 +131,14 @@ fn frames_for(rng: &mut Rng, ai: usize, icao: u32) -> Vec<Vec<u8>> {
         }
         v.push(world::df17(icao, 5, me));
     }
+    // an identification of eight spaces, a second call sign (changed in flight)
+    v.push(world::df17_identification(icao, 4, 0, "        "));
+    v.push(world::df17_identification(icao, 4, 0, &format!("ALT{}Z{:02}", ai, rng.below(100))));
+    // altitudes at the ends of the code: below sea level, above FL500
+    for a in [-1000i32, -975, -25, 0, 50175, 126_700] {
+        v.push(world::df4(icao, 0, a));
+        v.push(world::df17_airborne_position(icao, 11, a, lat, lon, rng.chance(0.5)).0);
+    }
     // TIS-B with assorted control fields
     for cf in [0u8, 1, 2, 3, 4, 5, 6, 7] {
         let (f, _) = world::df17_airborne_position(icao, 11, alt, lat, lon, rng.chance(0.5));
@@ -174,10 +182,10 @@ impl Scenario for C12 {
                 // neighbours in address space (one bit apart)
                 0 | 1 if !icaos.is_empty() => icaos[0] ^ (1 << rng.below(24)),
                 // addresses at the edges of the 24-bit space and with leading zeros
-                2 => *rng.pick(&[0x000001u32, 0xFFFFFF, 0xFFFFFE, 0x800000, 0x7FFFFF, 0x000100, 0x0A0000, 0x100000, 0x0FFFFF, 0x00000A]),
+                2 => *rng.pick(&[0x000001u32, 0xFFFFFF, 0xFFFFFE, 0x800000, 0x7FFFFF, 0x000100, 0x0A0000, 0x100000, 0x0FFFFF, 0x00000A, 0x000000]),
                 _ => rng.range(1, 0xFF_FFFE) as u32,
             };
-            if !icaos.contains(&i) && i != 0 {
+            if !icaos.contains(&i) {
                 icaos.push(i);
             }
         }
